@@ -2700,7 +2700,7 @@ impl Compiler {
         });
 
         // Track the current numeric value for auto-increment
-        let mut current_value: i64 = 0;
+        let mut current_value: f64 = 0.0;
         let value_reg = self.builder.alloc_register()?;
         let key_reg = self.builder.alloc_register()?;
 
@@ -2720,15 +2720,18 @@ impl Compiler {
                 if let crate::ast::Expression::Literal(lit) = init
                     && let crate::ast::LiteralValue::Number(n) = &lit.value
                 {
-                    current_value = *n as i64 + 1;
+                    current_value = *n + 1.0;
+                } else if let crate::ast::Expression::Unary(unary) = init
+                    && unary.operator == crate::ast::UnaryOp::Minus
+                    && let crate::ast::Expression::Literal(lit) = unary.argument.as_ref()
+                    && let crate::ast::LiteralValue::Number(n) = &lit.value
+                {
+                    current_value = -*n + 1.0;
                 }
             } else {
-                // Use auto-increment value
-                self.builder.emit(Op::LoadInt {
-                    dst: value_reg,
-                    value: current_value as i32,
-                });
-                current_value += 1;
+                // Use auto-increment value (a number: it does not wrap at 32 bits)
+                self.builder.emit_load_number(value_reg, current_value)?;
+                current_value += 1.0;
             }
 
             // Add this member to prior members for subsequent initializers
